@@ -161,8 +161,14 @@ def partition_volume(ctx) -> None:
     rets = [n for n in fv.cfg.nodes if n.kind == "stmt" and isinstance(n.ast, ast.Return) and n.ast.value is not None]
     n_list = 0
     for rn in rets:
-        val = rn.ast.value
-        c = f"{f.qualname}/return[{stmt_key(rn.ast)[:30]}]"
+        val = fv.alias_root(rn.ast.value, rn.id)
+        if isinstance(val, ast.Name):
+            raw, at = fv.def_expr(val, rn.id)
+            # a list that is only defined (never appended to) is just a temporary for its literal
+            mutated = any(isinstance(cs.call.func, ast.Attribute) and cs.call.func.attr in ("append", "extend", "insert") and is_name(cs.call.func.value, val.id) for cs in fv.calls())
+            if isinstance(raw, ast.List) and not mutated:
+                val = raw
+        c = f"{f.qualname}/return[{stmt_key(val)[:30]}]"
         w = f.where(rn.ast)
         facts = [(to_cmp(r, pol), raw) for r, pol, raw in fv.rfacts_at(rn.id) if isinstance(r, ast.Compare) and len(r.ops) == 1]
         cms = [c_ for c_, _ in facts if c_ is not None]
